@@ -90,27 +90,39 @@ def clause_b(repo, chk):
     chk.instance("B-polar", "name suffix orders: %s" % sorted(orders_by_len.values()))
 
     call = repo.fn("%s::Variable.__call__" % VAR)
+    from ..sym import SelfObj
+
+    vmc = repo.cls("%s::VarsManager" % VAR)
 
     def stack_hook(tr, d, args, kwargs, n):
         last = d.split(".")[-1]
         if last == "stack" and isinstance(args[0], (list, tuple)) and len(args[0]) == 1:
             return args[0][0]
+        if last == "reshape":
+            return args[0]
         return NotImplemented
 
-    def analyse_block(stmts, var_list, label):
-        tr = Translator(repo, hooks={"numeric_call": stack_hook})
-        env = {"var": var_list, "charge": ch}
-        found = {}
-        for st in stmts:
-            if not isinstance(st, ast.Assign):
-                continue
-            try:
-                tr.exec_stmt(st, env, call.mod, 0)
-            except Unmodelled:
-                continue
-            if isinstance(st.value, ast.Call) and norm_text(st.value.func).endswith("complex") and isinstance(st.targets[0], ast.Name):
-                found[st.targets[0].id] = env[st.targets[0].id]
-        return found, env
+    def read_hook(tr, args, kwargs, n):
+        nm = args[1]
+        for suf in ("deltar", "deltai", "r", "i"):
+            if nm.endswith(suf):
+                return roles[suf]
+        raise Unmodelled("read of %s" % nm)
+
+    def evaluate(attrs, flag):
+        """Variable.__call__ interpreted as a whole on a one-element variable; `flag` is the polar flag of its complex pair"""
+        tr = Translator(repo, hooks={"numeric_call": stack_hook, vmc.methods["read"].key: read_hook}, max_depth=2)
+        base = attrs["all_name_list"][0]
+        for suf in ("deltar", "deltai", "r", "i"):
+            if base.endswith(suf):
+                base = base[: -len(suf)]
+                break
+        vm = SelfObj(vmc, {"complex_vars": {base: flag} if flag is not None else {}})
+        so = SelfObj(call.cls, dict(attrs, vm=vm))
+        try:
+            return tr.call_fn(call, [ch], self_obj=so)
+        except Unmodelled as e:
+            raise AnalysisError("Variable.__call__ not interpretable (%s): %s" % (attrs.get("_label"), e))
 
     def require(label, got, want, construct):
         ok, detail = equal(sp.sympify(got), sp.sympify(want))
@@ -118,100 +130,24 @@ def clause_b(repo, chk):
             raise AnalysisError("B-polar normaliser too weak at %s: %s" % (label, detail))
         chk.instance("B-polar", "%s: %s == %s -> %s" % (label, got, want, "ok" if ok else "FAIL"))
         if not ok:
-            chk.violation("B-polar", call.key if "call" in construct else "%s::VarsManager.%s" % (VAR, construct.split(":")[0]), construct,
-                          "%s computes %s but the common convention requires %s (%s)" % (label, got, want, detail), file=VAR, line=call.lineno)
+            chk.violation("B-polar", call.key, construct, "%s computes %s but the common convention requires %s (%s)" % (label, got, want, detail), file=VAR, line=call.lineno)
 
-    # 2. Variable.__call__: find the three branches
-    top = [s for s in call.node.body if isinstance(s, ast.If)]
-    if not top:
-        raise AnalysisError("Variable.__call__: top-level if on self.shape not found")
-    shaped = top[0]
-    inner = [s for s in shaped.body if isinstance(s, ast.If)]
-    if not inner or "cp_effect" not in norm_text(inner[0].test):
-        raise AnalysisError("Variable.__call__: cp_effect branch not found")
-    cp_body = inner[0].body
-    cplx_if = inner[0].orelse[0] if inner[0].orelse and isinstance(inner[0].orelse[0], ast.If) else None
-    if cplx_if is None or "cplx" not in norm_text(cplx_if.test):
-        raise AnalysisError("Variable.__call__: shaped cplx branch not found")
-    # cp_effect branch: var = one element group [r, deltar, i, deltai]
     o4 = orders_by_len[4]
-    found, env = analyse_block(cp_body, [roles[s] for s in o4], "cp")
-    where = [s for s in cp_body if isinstance(s, ast.Assign) and isinstance(s.value, ast.Call) and norm_text(s.value.func).endswith("where")]
-    if len(found) != 2 or not where:
-        raise AnalysisError("Variable.__call__ cp_effect branch: expected two tf.complex values and a tf.where, found %s" % sorted(found))
-    pol, rect = norm_text(where[0].value.args[1]), norm_text(where[0].value.args[2])
     rho, phi = R + ch * dR, PH + ch * dPH
-    require("Variable.__call__[cp_effect] polar", found[pol], rho * sp.cos(phi) + sp.I * rho * sp.sin(phi), "call:cp:polar")
-    require("Variable.__call__[cp_effect] cartesian", found[rect], rho + sp.I * phi, "call:cp:rect")
-    # shaped complex branch
-    found, env = analyse_block(cplx_if.body, [roles[s] for s in orders_by_len[2]], "cplx")
-    where = [s for s in cplx_if.body if isinstance(s, ast.Assign) and isinstance(s.value, ast.Call) and norm_text(s.value.func).endswith("where")]
-    if len(found) != 2 or not where:
-        raise AnalysisError("Variable.__call__ shaped complex branch: expected two tf.complex values and a tf.where")
-    pol, rect = norm_text(where[0].value.args[1]), norm_text(where[0].value.args[2])
-    require("Variable.__call__[shape,cplx] polar", found[pol], R * sp.cos(PH) + sp.I * R * sp.sin(PH), "call:cplx:polar")
-    require("Variable.__call__[shape,cplx] cartesian", found[rect], R + sp.I * PH, "call:cplx:rect")
-    # scalar branch
-    scalar = shaped.orelse
-    sc_if = [s for s in scalar if isinstance(s, ast.If) and "cplx" in norm_text(s.test)]
-    if not sc_if:
-        raise AnalysisError("Variable.__call__: scalar cplx branch not found")
-    pol_if = [s for s in sc_if[0].body if isinstance(s, ast.If) and "complex_vars" in norm_text(s.test)]
-    if not pol_if:
-        raise AnalysisError("Variable.__call__: scalar polar test not found")
-    f1, _ = analyse_block(pol_if[0].body, [R, PH], "scalar-polar")
-    f2, _ = analyse_block(pol_if[0].orelse, [R, PH], "scalar-rect")
-    if len(f1) != 1 or len(f2) != 1:
-        raise AnalysisError("Variable.__call__ scalar branch: tf.complex values not found")
-    require("Variable.__call__[scalar] polar", list(f1.values())[0], R * sp.cos(PH) + sp.I * R * sp.sin(PH), "call:scalar:polar")
-    require("Variable.__call__[scalar] cartesian", list(f2.values())[0], R + sp.I * PH, "call:scalar:rect")
-
-    # 3. rp2xy / xy2rp
-    def coord(fname):
-        fn = repo.fn("%s::VarsManager.%s" % (VAR, fname))
-        loads, stores, flag = {}, {}, None
-        tr = Translator(repo)
-        env = {}
-        for st in fn.node.body:
-            if isinstance(st, ast.Assign) and isinstance(st.targets[0], ast.Name) and isinstance(st.value, ast.Subscript) and norm_text(st.value.value) == "self.variables":
-                suf = st.value.slice.right.value if isinstance(st.value.slice, ast.BinOp) and isinstance(st.value.slice.right, ast.Constant) else None
-                sym = {"r": sp.Symbol("A", real=True), "i": sp.Symbol("B", real=True)}.get(suf)
-                if sym is None:
-                    raise AnalysisError("%s: unexpected component %s" % (fname, norm_text(st.value)))
-                env[st.targets[0].id] = sym
-                loads[st.targets[0].id] = suf
-            elif isinstance(st, ast.Assign) and isinstance(st.targets[0], ast.Name):
-                try:
-                    tr.exec_stmt(st, env, fn.mod, 0)
-                except Unmodelled:
-                    pass
-            elif isinstance(st, ast.Expr) and isinstance(st.value, ast.Call) and isinstance(st.value.func, ast.Attribute) and st.value.func.attr == "assign":
-                tgt = st.value.func.value
-                if isinstance(tgt, ast.Subscript) and norm_text(tgt.value) == "self.variables":
-                    suf = tgt.slice.right.value
-                    stores[suf] = tr.eval(st.value.args[0], env, fn.mod, 0)
-            elif isinstance(st, ast.Assign) and isinstance(st.targets[0], ast.Subscript) and norm_text(st.targets[0].value) == "self.complex_vars":
-                flag = norm_text(st.value)
-        return fn, stores, flag
-
-    A, B = sp.Symbol("A", real=True), sp.Symbol("B", real=True)
-    fn, st, flag = coord("rp2xy")
-    for suf, want, lab in (("r", A * sp.cos(B), "x = r cos(phi) stored in `..r`"), ("i", A * sp.sin(B), "y = r sin(phi) stored in `..i`")):
-        ok, d = equal(st.get(suf, sp.nan), want)
-        chk.instance("B-polar", "rp2xy: %s -> %s" % (lab, bool(ok)))
-        if not ok:
-            chk.violation("B-polar", fn.key, "rp2xy:%s" % suf, "rp2xy stores %s into the `..%s` component, the convention requires %s" % (st.get(suf), suf, want), file=VAR, line=fn.lineno)
-    if flag != "False":
-        chk.violation("B-polar", fn.key, "rp2xy:flag", "rp2xy must mark the variable Cartesian (complex_vars[name] = False), it sets %s" % flag, file=VAR, line=fn.lineno)
-    fn, st, flag = coord("xy2rp")
-    for suf, want, lab in (("r", sp.sqrt(A * A + B * B), "r = sqrt(x^2+y^2) stored in `..r`"), ("i", sp.atan2(B, A), "phi = atan2(y, x) stored in `..i`")):
-        ok, d = equal(st.get(suf, sp.nan), want)
-        chk.instance("B-polar", "xy2rp: %s -> %s" % (lab, bool(ok)))
-        if not ok:
-            chk.violation("B-polar", fn.key, "xy2rp:%s" % suf, "xy2rp stores %s into the `..%s` component, the convention requires %s" % (st.get(suf), suf, want), file=VAR, line=fn.lineno)
-    if flag != "True":
-        chk.violation("B-polar", fn.key, "xy2rp:flag", "xy2rp must mark the variable polar (complex_vars[name] = True), it sets %s" % flag, file=VAR, line=fn.lineno)
-    chk.require_count("B-polar", 11)
+    cp = {"shape": [sp.Integer(1)], "cp_effect": True, "cplx": True, "name": "A", "all_name_list": ["A_0" + s_ for s_ in o4], "_label": "cp_effect"}
+    require("Variable.__call__[cp_effect] polar", evaluate(cp, True), rho * sp.cos(phi) + sp.I * rho * sp.sin(phi), "call:cp:polar")
+    require("Variable.__call__[cp_effect] cartesian", evaluate(cp, False), rho + sp.I * phi, "call:cp:rect")
+    shaped = {"shape": [sp.Integer(1)], "cp_effect": False, "cplx": True, "name": "A", "all_name_list": ["A_0" + s_ for s_ in orders_by_len[2]], "_label": "shaped complex"}
+    require("Variable.__call__[shape,cplx] polar", evaluate(shaped, True), R * sp.cos(PH) + sp.I * R * sp.sin(PH), "call:cplx:polar")
+    require("Variable.__call__[shape,cplx] cartesian", evaluate(shaped, False), R + sp.I * PH, "call:cplx:rect")
+    require("Variable.__call__[shape,cplx] flag missing -> cartesian", evaluate(shaped, None), R + sp.I * PH, "call:cplx:default")
+    scalar = {"shape": [], "cp_effect": False, "cplx": True, "name": "A", "all_name_list": ["A" + s_ for s_ in orders_by_len[2]], "_label": "scalar complex"}
+    require("Variable.__call__[scalar] polar", evaluate(scalar, True), R * sp.cos(PH) + sp.I * R * sp.sin(PH), "call:scalar:polar")
+    require("Variable.__call__[scalar] cartesian", evaluate(scalar, False), R + sp.I * PH, "call:scalar:rect")
+    real = {"shape": [], "cp_effect": False, "cplx": False, "name": "A", "all_name_list": ["Ar"], "_label": "scalar real"}
+    require("Variable.__call__[scalar, real] is the stored value", evaluate(real, None), R, "call:scalar:real")
+    # rp2xy / xy2rp: the conversion formulas and the flags are decided by the interpretation of clause F-tie
+    chk.require_count("B-polar", 9)
 
 
 # --------------------------------------------------------------------------- (c)
@@ -317,11 +253,16 @@ def clause_c(repo, chk):
         chk.violation("C-drop", sp_fn.key, "angle-not-wrapped", "std_polar no longer wraps the phase into [-pi, pi)", file=VAR, line=sp_fn.lineno)
     # the wrap itself: (p - a) % (b - a) + a
     w = repo.fn("%s::VarsManager._std_polar_angle" % VAR)
+    from ..sym import Translator as _T2, Unmodelled as _U2
+
+    P_, A_, B_ = sp.symbols("P_ A_ B_", real=True)
+    try:
+        val = _T2(repo, hooks={"binop:Mod": lambda tr_, x_, y_: sp.Mod(x_, y_)}, max_depth=1).call_fn(w, [P_, A_, B_])
+    except _U2 as e:
+        raise AnalysisError("_std_polar_angle not translatable: %s" % e)
+    want_w = sp.Mod(P_ - A_, B_ - A_) + A_
+    ok = sp.simplify(sp.sympify(val) - want_w) == 0 or all(abs(complex(sp.N((sp.sympify(val) - want_w).subs({P_: pv, A_: -sp.pi, B_: sp.pi})))) < 1e-12 for pv in (sp.Rational(-47, 10), sp.Rational(-1, 3), sp.Rational(22, 7), sp.Rational(71, 10), sp.Integer(-13)))
     r = [n for n in walk_local(w.node) if isinstance(n, ast.Return)][0].value
-    ok = (isinstance(r, ast.BinOp) and isinstance(r.op, ast.Add) and isinstance(r.left, ast.BinOp) and isinstance(r.left.op, ast.Mod)
-          and norm_text(r.left.left) == "p - a" and norm_text(r.left.right) == "b - a" and norm_text(r.right) == "a") or \
-         (isinstance(r, ast.BinOp) and isinstance(r.op, ast.Add) and norm_text(r.left) == "a" and isinstance(r.right, ast.BinOp) and isinstance(r.right.op, ast.Mod)
-          and norm_text(r.right.left) == "p - a" and norm_text(r.right.right) == "b - a")
     d = w.defaults()
     dflt_ok = norm_text(d.get("a")) in ("-np.pi", "-math.pi") and norm_text(d.get("b")) in ("np.pi", "math.pi")
     chk.instance("C-drop", "_std_polar_angle = (p - a) %% (b - a) + a with a=-pi, b=pi: %s" % (ok and dflt_ok))
@@ -340,25 +281,35 @@ def clause_c(repo, chk):
 def clause_d(repo, chk):
     chk.rule("D-bound", "default Bound formulas map R into the bound: two-sided -> [a,b] (sin in [-1,1]), lower -> [a,inf), upper -> (-inf,b] (sqrt(x^2+1) >= 1); each formula mentions only the bounds that exist")
     init = repo.fn("%s::Bound.__init__" % VAR)
-    # walk the if-tree on `a is None` / `b is None`
+    # Bound.__init__ interpreted for the four (a given?, b given?) combinations (numbers 1 < 2): the default formula text
+    from ..sym import Raised, SelfObj, Translator, Unmodelled
+
+    bcls = repo.cls("%s::Bound" % VAR)
     table = {}
 
-    def walk(stmts, cond):
-        for st in stmts:
-            if isinstance(st, ast.If):
-                t = norm_text(st.test)
-                if t in ("a is None", "b is None"):
-                    v = t[0]
-                    walk(st.body, dict(cond, **{v: None}))
-                    walk(st.orelse, dict(cond, **{v: "set"}))
-                elif t == "func":
-                    walk(st.orelse, cond)
-            elif isinstance(st, ast.Assign) and norm_text(st.targets[0]) == "self.func" and isinstance(st.value, ast.Constant):
-                table[(cond.get("a"), cond.get("b"))] = st.value.value
+    def run_init(av, bv):
+        tr = Translator(repo, hooks={"allow_attr_store": True, "allow_raise": True, bcls.methods["get_func"].key: lambda tr_, a_, k_, n_: (None, None, None, None)}, max_depth=2)
+        so = SelfObj(bcls, {})
+        tr.call_fn(init, [av, bv], self_obj=so)
+        return so
 
-    walk(init.node.body, {})
-    if len(table) != 4:
-        raise AnalysisError("Bound.__init__: default formula table has %d entries: %s" % (len(table), table))
+    for ca, av in ((None, None), ("set", sp.Integer(1))):
+        for cb, bv in ((None, None), ("set", sp.Integer(2))):
+            try:
+                so = run_init(av, bv)
+            except (Unmodelled, Raised) as e:
+                raise AnalysisError("Bound.__init__ not interpretable for a=%s, b=%s: %s" % (av, bv, e))
+            if not isinstance(so.attrs.get("func"), str):
+                raise AnalysisError("Bound.__init__(a=%s, b=%s) does not set a formula text: %r" % (av, bv, so.attrs.get("func")))
+            table[(ca, cb)] = so.attrs["func"]
+    # a > b must be rejected
+    try:
+        run_init(sp.Integer(2), sp.Integer(1))
+        guard_by_interpretation = False
+    except Raised:
+        guard_by_interpretation = True
+    except Unmodelled as e:
+        raise AnalysisError("Bound.__init__ not interpretable for a > b: %s" % e)
     x, a, b, s, t = sp.symbols("x a b s t", real=True)
     for (ca, cb), text in sorted(table.items(), key=str):
         f = sp.sympify(text, locals={"x": x, "a": a, "b": b})
@@ -385,7 +336,7 @@ def clause_d(repo, chk):
         if not (ok and ok_names):
             chk.violation("D-bound", init.key, "formula:a=%s,b=%s" % (ca, cb), "default transform `%s` for a=%s, b=%s does not map the real line into the bound (%s) or mentions an undefined bound" % (text, ca, cb, desc), file=VAR, line=init.lineno)
     # a > b is rejected
-    guard = any(isinstance(n, ast.If) and "a > b" in norm_text(n.test) and any(isinstance(x_, ast.Raise) for x_ in n.body) for n in walk_local(init.node))
+    guard = guard_by_interpretation
     chk.instance("D-bound", "Bound.__init__ rejects a > b: %s" % guard)
     if not guard:
         chk.violation("D-bound", init.key, "order-guard", "Bound no longer rejects lower > upper (the two-sided transform would be decreasing)", file=VAR, line=init.lineno)
@@ -397,78 +348,103 @@ def clause_e(repo, chk):
     """bulk re-randomisation never touches a fixed parameter"""
     chk.rule("E-fixed", "in VarsManager.refresh_vars every assignment to self.variables[name] is guarded by `name in self.trainable_vars` (if-test, continue-guard, or a loop over the trainable names): a fixed parameter changes only when explicitly assigned")
     fn = repo.fn("%s::VarsManager.refresh_vars" % VAR)
-    from ..model import parent_map
+    # interpreted on a small manager: trainable and fixed variables in every group the function treats (complex pair in
+    # polar and Cartesian form, initial value as (mu, sigma) / as a number / absent, bounded on either side) - the set of
+    # variables that get assigned must be a subset of the trainable ones, and every trainable one with a rule is drawn
+    import sympy as sp
 
-    pm = parent_map(fn.node)
-    n_assign = 0
-    for n in walk_local(fn.node):
-        if not (isinstance(n, ast.Call) and isinstance(n.func, ast.Attribute) and n.func.attr in ("assign", "assign_add", "assign_sub")):
-            continue
-        tgt = n.func.value
-        if not (isinstance(tgt, ast.Subscript) and norm_text(tgt.value) == "self.variables"):
-            continue
-        n_assign += 1
-        key = norm_text(tgt.slice)
-        guarded = None
-        cur = n
-        while cur in pm and guarded is None:
-            par = pm[cur]
-            if isinstance(par, ast.If) and cur in par.body:
-                t = par.test
-                for x in ast.walk(t):
-                    if isinstance(x, ast.Compare) and len(x.ops) == 1 and isinstance(x.ops[0], ast.In) and norm_text(x.left) == key and norm_text(x.comparators[0]) == "self.trainable_vars":
-                        guarded = "if %s" % norm_text(t)
-            if isinstance(par, (ast.For,)) and cur in par.body:
-                if norm_text(par.target) == key and "self.trainable_vars" in norm_text(par.iter) and ("&" in norm_text(par.iter) or norm_text(par.iter) == "self.trainable_vars"):
-                    guarded = "for %s in %s" % (key, norm_text(par.iter))
-                else:
-                    # continue-guard earlier in the same loop body
-                    idx = par.body.index(cur) if cur in par.body else None
-                    for st in par.body[: idx if idx is not None else 0]:
-                        if isinstance(st, ast.If) and len(st.body) == 1 and isinstance(st.body[0], ast.Continue):
-                            tt = st.test
-                            if isinstance(tt, ast.Compare) and len(tt.ops) == 1 and isinstance(tt.ops[0], ast.NotIn) and norm_text(tt.left) == key and norm_text(tt.comparators[0]) == "self.trainable_vars":
-                                guarded = "continue-guard `%s`" % norm_text(tt)
-            cur = par
-        chk.instance("E-fixed", "refresh_vars: `%s` guarded by %s" % (norm_text(n)[:70], guarded or "NOTHING"))
-        if guarded is None:
-            chk.violation("E-fixed", fn.key, "unguarded:%s" % key, "`%s` re-draws self.variables[%s] without checking that %s is trainable: a fixed parameter is silently re-randomised" % (norm_text(n)[:80], key, key), file=VAR, line=n.lineno)
-    if n_assign < 6:
-        raise AnalysisError("refresh_vars: only %d variable assignments found" % n_assign)
+    from ..sym import SelfObj, Translator, Unmodelled
+
+    names = ["Ar", "Ai", "Br", "Bi", "Cr", "Ci", "Dr", "Di", "x", "y", "u", "v", "w", "z", "q"]
+    var = {n: sp.Symbol("VAR_" + n, real=True) for n in names}
+    back = {v: k for k, v in var.items()}
+    trainable = ["Ar", "Bi", "Ci", "Dr", "x", "u", "w", "q"]  # Ai, Br, Cr, Di, y, v, z are fixed: every branch sees a fixed and a trainable component
+    init_val = {"x": (sp.Integer(1), sp.Rational(1, 10)), "y": (sp.Integer(2), sp.Rational(1, 10)), "u": sp.Rational(1, 2), "v": sp.Rational(3, 2)}
+    bounds = {"x": (sp.Integer(0), sp.Integer(2)), "w": (sp.Integer(0), sp.Integer(3)), "z": (sp.Integer(0), sp.Integer(3)), "q": (sp.Integer(1), None), "y": (None, sp.Integer(5))}
+    assigned = []
+
+    def sym_method(tr, obj, mname, args, kwargs):
+        if mname in ("assign", "assign_add", "assign_sub") and obj in back:
+            assigned.append(back[obj])
+            return None
+        return NotImplemented
+
+    def numeric(tr, d, args, kwargs, n):
+        if d.split(".")[-1] in ("uniform", "normal", "chisquare"):
+            return sp.Symbol("rnd%d" % len(assigned), positive=True)
+        return NotImplemented
+
+    tr = Translator(repo, hooks={"sym_method": sym_method, "numeric_call": numeric, "allow_attr_store": True}, where_policy=lambda cond, t: True, max_depth=3)
+    vm = repo.cls("%s::VarsManager" % VAR)
+    so = SelfObj(vm, {"variables": dict(var), "trainable_vars": list(trainable), "complex_vars": {"A": True, "B": False, "C": True, "D": False}, "bnd_dic": {}, "init_val": {}, "dtype": "float64"})
+    try:
+        tr.call_fn(fn, [dict(init_val), dict(bounds)], self_obj=so)
+    except Unmodelled as e:
+        raise AnalysisError("refresh_vars not interpretable on the small manager: %s" % e)
+    fixed_hit = sorted(set(assigned) - set(trainable))
+    chk.instance("E-fixed", "refresh_vars interpreted on 15 variables (8 trainable, 7 fixed; complex pairs, (mu, sigma) / number / no initial value, bounds): assigned %s, fixed ones among them: %s" % (sorted(set(assigned)), fixed_hit or "none"))
+    for nme in fixed_hit:
+        chk.violation("E-fixed", fn.key, "unguarded:%s" % nme, "refresh_vars assigns the fixed variable `%s` (interpreted on a manager where it is not in trainable_vars): a fixed parameter is silently re-randomised" % nme, file=VAR, line=fn.lineno)
+    missing = sorted(set(trainable) - set(assigned))
+    if len(set(assigned)) < 4:
+        raise AnalysisError("refresh_vars: only %s assigned in the interpretation" % sorted(set(assigned)))
 
 
 # --------------------------------------------------------------------------- (f)
 def clause_f(repo, chk):
-    """coordinate switches flag every member of a tie group"""
-    chk.rule("F-tie", "rp2xy and xy2rp propagate the polar flag to every member of the tie group of `name` (inner loop over the whole group, no break inside it) with the same value they set for `name`")
-    shapes = {}
-    for fname, flag in (("rp2xy", "False"), ("xy2rp", "True")):
-        fn = repo.fn("%s::VarsManager.%s" % (VAR, fname))
-        loops = [n for n in fn.node.body if isinstance(n, ast.For) and "same_list" in norm_text(n.iter)]
-        if len(loops) != 1:
-            raise AnalysisError("%s: tie-group loop not found" % fname)
-        lp = loops[0]
-        grp = norm_text(lp.target)
-        ok = False
-        why = "no `if name in <group>` test"
-        for st in lp.body:
-            if isinstance(st, ast.If) and norm_text(st.test) == "name in %s" % grp:
-                inner = [x for x in st.body if isinstance(x, ast.For)]
-                brk_outer = any(isinstance(x, ast.Break) for x in st.body)
-                if len(inner) == 1 and norm_text(inner[0].iter) == grp:
-                    iv = norm_text(inner[0].target)
-                    body = inner[0].body
-                    only_assign = len(body) == 1 and isinstance(body[0], ast.Assign) and norm_text(body[0].targets[0]) == "self.complex_vars[%s]" % iv and norm_text(body[0].value) == flag
-                    no_break = not any(isinstance(x, (ast.Break, ast.Continue, ast.Return)) for b in body for x in ast.walk(b)) and not inner[0].orelse
-                    ok = only_assign and no_break
-                    why = "inner loop body must be exactly `self.complex_vars[%s] = %s` without break/continue" % (iv, flag)
-                else:
-                    why = "no inner loop over the whole tie group"
-        own = [n for n in fn.node.body if isinstance(n, ast.Assign) and norm_text(n.targets[0]) == "self.complex_vars[name]"]
-        own_ok = bool(own) and norm_text(own[0].value) == flag
-        chk.instance("F-tie", "%s: flag %s set for `name`: %s; propagated to the whole tie group: %s" % (fname, flag, own_ok, ok))
-        if not (ok and own_ok):
-            chk.violation("F-tie", fn.key, "tie-flag", "%s must flag every member of the tie group of `name` as %s (%s)" % (fname, "polar" if flag == "True" else "Cartesian", why), file=VAR, line=lp.lineno)
+    """coordinate switches flag every member of a tie group; interpreted on a small manager"""
+    import sympy as sp
+
+    from ..sym import SelfObj, Translator, Unmodelled, equal
+
+    chk.rule("F-tie", "rp2xy / xy2rp, interpreted on a manager with the tie groups [A, B, C] and [D, E] (called for the head, a middle member and a single variable): the pair is rewritten as (r cos phi, r sin phi) resp. (sqrt(x^2+y^2), atan2(y, x)) and the polar flag of every member of the tie group of `name` - and of no other variable - takes the new value")
+    vm = repo.cls("%s::VarsManager" % VAR)
+    for fname, flag in (("rp2xy", False), ("xy2rp", True)):
+        fn = vm.methods.get(fname)
+        if fn is None:
+            raise AnalysisError("anchor vanished: VarsManager.%s" % fname)
+        bad = []
+        for name in ("A", "B", "D", "F"):
+            cv = {k: (not flag) for k in "ABCDEF"}
+            var = {}
+            for k in "ABCDEF":
+                var[k + "r"] = sp.Symbol("V_%sr" % k, positive=True)
+                var[k + "i"] = sp.Symbol("V_%si" % k, real=True)
+            back = {v: k for k, v in var.items()}
+            assigned = {}
+
+            def sym_method(tr, obj, mname, args, kwargs, assigned=assigned, back=back):
+                if mname == "assign" and obj in back:
+                    assigned[back[obj]] = args[0]
+                    return None
+                return NotImplemented
+
+            tr = Translator(repo, hooks={"sym_method": sym_method, "allow_attr_store": True}, max_depth=2)
+            so = SelfObj(vm, {"variables": dict(var), "complex_vars": cv, "same_list": [["A", "B", "C"], ["D", "E"]]})
+            try:
+                tr.call_fn(fn, [name], self_obj=so)
+            except Unmodelled as e:
+                raise AnalysisError("VarsManager.%s not interpretable on the small manager: %s" % (fname, e))
+            group = {"A": "ABC", "B": "ABC", "D": "DE", "F": "F"}[name]
+            want = {k: (flag if k in group else (not flag)) for k in "ABCDEF"}
+            got = {k: cv[k] for k in "ABCDEF"}
+            if got != want:
+                bad.append(("tie-flag", "%s(%r): polar flags become %s, expected %s (tie groups [A,B,C], [D,E])" % (fname, name, got, want)))
+            r0, p0 = var[name + "r"], var[name + "i"]
+            if fname == "rp2xy":
+                exp = {name + "r": r0 * sp.cos(p0), name + "i": r0 * sp.sin(p0)}
+            else:
+                exp = {name + "r": sp.sqrt(r0 ** 2 + p0 ** 2), name + "i": sp.atan2(p0, r0)}
+            if set(assigned) != set(exp) or any(equal(sp.sympify(assigned[k]), exp[k])[0] is not True for k in exp if k in assigned):
+                bad.append(("convert", "%s(%r): stores %s, expected %s" % (fname, name, {k: str(v) for k, v in assigned.items()}, {k: str(v) for k, v in exp.items()})))
+        chk.instance("F-tie", "%s on 4 names: flags of the whole tie group and only of it, pair converted: %s" % (fname, not bad))
+        seen = set()
+        for kind, msg in bad:
+            if kind in seen:
+                continue
+            seen.add(kind)
+            chk.violation("F-tie", fn.key, kind, msg + (": a tied variable keeps the old flag and is read in the wrong coordinate system" if kind == "tie-flag" else ""), file=VAR, line=fn.lineno)
+    chk.require_count("F-tie", 2)
 
 
 def run(repo, chk, tier):
